@@ -371,7 +371,78 @@ def r03_6(chk):
     chk.floor("R03.6", 4, "gap-relative sibling operations")
 
 
+def _value_kind(e):
+    """syntactic kind of an argument expression, when it is evident"""
+    if isinstance(e, (ast.List, ast.ListComp)) or (isinstance(e, ast.Call) and call_name(e) == "list"):
+        return "list"
+    if isinstance(e, (ast.Tuple,)) or (isinstance(e, ast.Call) and call_name(e) == "tuple"):
+        return "tuple"
+    if isinstance(e, (ast.Dict, ast.DictComp)) or (isinstance(e, ast.Call) and call_name(e) == "dict"):
+        return "dict"
+    if isinstance(e, ast.JoinedStr) or (isinstance(e, ast.Constant) and isinstance(e.value, str)) or (isinstance(e, ast.Call) and call_name(e) == "str"):
+        return "str"
+    if isinstance(e, ast.Call) and isinstance(e.func, ast.Attribute) and e.func.attr == "join" and isinstance(e.func.value, ast.Constant) and isinstance(e.func.value.value, str):
+        return "str"
+    if isinstance(e, ast.GeneratorExp):
+        return "generator"
+    return None
+
+
+def _branch_kind_conflicts(fn):
+    """(if-node, callee, slot, kindA, kindB, callB) where the two branches of one `if` give the same callee slot values of different evident kinds"""
+    out, pairs = [], 0
+    for i in walk_no_nested(fn):
+        if not isinstance(i, ast.If) or not i.orelse:
+            continue
+        sides = []
+        for blk in (i.body, i.orelse):
+            slots = {}
+            for st in blk:
+                for c in ast.walk(st):
+                    if isinstance(c, ast.Call) and call_name(c):
+                        for kw in c.keywords:
+                            if kw.arg and _value_kind(kw.value):
+                                slots.setdefault((call_name(c), kw.arg), (_value_kind(kw.value), c))
+                        for n, a in enumerate(c.args):
+                            if _value_kind(a):
+                                slots.setdefault((call_name(c), n), (_value_kind(a), c))
+            sides.append(slots)
+        for slot in set(sides[0]) & set(sides[1]):
+            pairs += 1
+            (ka, ca), (kb, cb) = sides[0][slot], sides[1][slot]
+            if ka != kb and {ka, kb} != {"list", "tuple"}:
+                out.append((i, slot[0], slot[1], ka, kb, ca))
+    return out, pairs
+
+
+def r03_7(chk):
+    chk.rule("R03.7", "the two branches of an option give the same callee the same kind of value: where both branches of one `if` call the same function with the same argument slot and the kinds are syntactically evident (string vs list vs dict ...), they agree (contradiction rule: one branch's belief about what the callee accepts is wrong, and the untested branch always raises)")
+    total = 0
+    for rel, classes in ((ALN, ("_SequenceCollectionBase", "SequenceCollection", "AlignmentI", "ArrayAlignment", "Alignment", "Aligned")), ("core/new_alignment.py", ("SequenceCollection", "Alignment", "Aligned"))):
+        m = chk.repo.module(rel)
+        for cname in classes:
+            ci = m.classes.get(cname)
+            if ci is None:
+                continue
+            for name, fn in ci.methods.items():
+                if not isinstance(fn, ast.FunctionDef):
+                    continue
+                conflicts, pairs = _branch_kind_conflicts(fn)
+                total += pairs
+                q = f"{cname}.{name}"
+                for i, callee, slot, ka, kb, c in conflicts:
+                    chk.violation("R03.7", key(m, q, f"{callee}({slot}=...) kinds {ka}/{kb}"), m.loc(c), f"under `if {norm(i.test)}` the call {callee}(...) receives a {ka} for `{slot}`, in the other branch a {kb}: one of the two branches cannot work (the operation raises for that option value)")
+                if pairs and not conflicts:
+                    chk.ok("R03.7", key(m, q, "branch kinds agree"), m.loc(fn), f"{pairs} slot(s) given the same kind in both branches")
+    probe = ast.parse("def f(self, negate):\n    if negate:\n        r = make_seq(seq=[c for c in s])\n    else:\n        r = make_seq(seq=''.join(c for c in s))\n").body[0]
+    if not _branch_kind_conflicts(probe)[0]:
+        raise AnalysisError("R03.7 self-probe failed")
+    chk.extra["R03.7 slot pairs compared"] = total
+    chk.floor("R03.7", 1, "at least take_positions' two make_seq calls")
+
+
 def run(chk):
+    r03_7(chk)
     r03_1(chk)
     r03_2(chk)
     r03_3(chk)
